@@ -187,12 +187,21 @@ func main() {
 func runSealSuicide(skip bool, out string) {
 	var shifted = make(chan struct{}, 4)
 	parkedCh := make(chan chan struct{}, 1)
+	sealerAtIdle := make(chan struct{})
 	first := true
 	var hmu sync.Mutex
 	verifhook.Set(func(point string, obj any, a, b int64) {
 		observer(point, obj, a, b)
 		switch point {
 		case "fm.shift":
+			// the schedule under test: retention pops the fraction WHILE it is being sealed. The sealer runs in
+			// its own goroutine; on a loaded machine it may not have started when retention (same pass) gets
+			// here, and the fraction would be deleted as a plain active one. Hold retention until the sealer
+			// is parked at pf.idle.
+			select {
+			case <-sealerAtIdle:
+			case <-time.After(170 * time.Second):
+			}
 			shifted <- struct{}{}
 		case "pf.idle":
 			hmu.Lock()
@@ -201,6 +210,7 @@ func runSealSuicide(skip bool, out string) {
 			hmu.Unlock()
 			if mine {
 				ch := make(chan struct{})
+				close(sealerAtIdle)
 				parkedCh <- ch
 				<-ch
 			}
